@@ -9,6 +9,7 @@ Open Scope Z_scope.
 
 Local Opaque peval fixpoly r.
 Arguments nph : simpl never.
+Arguments ph : simpl never.
 Arguments Nat.ltb : simpl never.
 Arguments Nat.leb : simpl never.
 
@@ -1879,6 +1880,7 @@ Proof.
       split; [|exact PB].
       refine (mkSA _ _ _ _ _ _ _ _ _ _ _ _ _); unfold B; rewrite ?to_vecF, ?to_vecOk, ?to_shF; fold B; rewrite ?NB; cbn; auto.
       all: try (rewrite Er; exact Svr).
+      all: try (intros Hv; rewrite Hv in Ev; discriminate Ev).
       all: try (rewrite Es; exact Ex).
       all: try (intro c; rewrite Hc; unfold B; rewrite to_ansF; apply Scompl).
       all: try (intros _ c; unfold B; rewrite to_ansEarly, to_ansF; apply Searly; lia).
@@ -1889,17 +1891,174 @@ Proof.
       assert (OA : ownc A = false) by (unfold DkgQualFacts.ownc; rewrite Es, Hn0; reflexivity).
       assert (OB : ownc B = true).
       { unfold DkgQualFacts.ownc, B. rewrite to_shF, to_vecOk, Es, Evo. fold B. rewrite NB. reflexivity. }
-      pose proof (own_complaint_refines A B q (qset_st q true) S P Hq (to_vecF A) (to_ansF A) (to_ansEarly A)
-                    (to_fatal A) (to_forced A) (to_compF A) OA OB) as HB.
-      destruct (build_complaint cf d (qset_st q true)) as [[q' ev]|].
-      * apply HB; cbn; auto; try lia.
-        -- rewrite NB. reflexivity.
-        -- unfold B. rewrite to_shF, Es. symmetry. exact Ex.
-        -- intros _ z Esb. unfold B in Esb. rewrite to_shF, Es in Esb. discriminate Esb.
-      * exfalso. apply HB; cbn; auto; try lia.
-        -- rewrite NB. reflexivity.
-        -- unfold B. rewrite to_shF, Es. symmetry. exact Ex.
-        -- intros _ z Esb. unfold B in Esb. rewrite to_shF, Es in Esb. discriminate Esb.
+      assert (HB : match build_complaint cf d (qset_st q true) with
+                   | Some (q', _) => Refines B q' | None => False end).
+      { apply (own_complaint_refines A B q (qset_st q true) S P); cbn; auto; try lia.
+        all: try (apply to_vecF). all: try (apply to_ansF). all: try (apply to_ansEarly).
+        all: try (apply to_fatal). all: try (apply to_forced). all: try (apply to_compF).
+        all: try (rewrite NB; reflexivity).
+        all: try (unfold B; rewrite to_shF, Es; exact Ex).
+        all: try (intros _ z Esb; unfold B in Esb; rewrite to_shF, Es in Esb; discriminate Esb). }
+      destruct (build_complaint cf d (qset_st q true)) as [[q' ev]|]; [exact HB|contradiction].
+Qed.
+
+(* ---------------- one step, any input ---------------- *)
+Theorem step_refines A q x : Refines A q -> Refines (A ++ [(nph A, x)]) (fst (istep q x)).
+Proof.
+  intros [R1 R2]. destruct (q_disq q) eqn:Hq.
+  - pose proof (istep_disq q x Hq) as Hd'. split; intro H; [rewrite Hd' in H; discriminate H|].
+    apply Phi_mono. apply R2. reflexivity.
+  - destruct (R1 eq_refl) as [S P]. destruct x as [o m|o m| |j].
+    + apply step_IB; assumption.
+    + apply step_IP; assumption.
+    + apply step_timeout; assumption.
+    + apply step_force; assumption.
+Qed.
+
+(* processing an input list *)
+Definition irun (q : qinst) (L : list item) : qinst := fold_left (fun q x => fst (istep q x)) L q.
+
+Lemma annot_from_app k L x :
+  annot_from k (L ++ [x]) = annot_from k L ++ [(Nat.min 2 (k + length (filter is_timeout L)), x)].
+Proof.
+  revert k. induction L as [|y L IH]; intro k; cbn [annot_from app filter length].
+  - rewrite Nat.add_0_r. reflexivity.
+  - rewrite IH. destruct (is_timeout y); cbn [length]; [rewrite Nat.add_succ_r|]; reflexivity.
+Qed.
+
+Lemma annot_snd k L : map snd (annot_from k L) = L.
+Proof. revert k. induction L as [|y L IH]; intro k; cbn; [reflexivity|]. rewrite IH. reflexivity. Qed.
+
+Lemma nph_annot L : nph (annot L) = ph L.
+Proof.
+  unfold nph, ph, annot. f_equal.
+  rewrite <- (annot_snd 0 L) at 2. generalize (annot_from 0 L). intro A.
+  induction A as [|[k x] A IH]; cbn; [reflexivity|]. destruct (is_timeout x); cbn; rewrite IH; reflexivity.
+Qed.
+
+Lemma annot_app L x : annot (L ++ [x]) = annot L ++ [(nph (annot L), x)].
+Proof. unfold annot. rewrite annot_from_app. rewrite nph_annot. reflexivity. Qed.
+
+Lemma existsb_const_false {X} (l : list X) : existsb (fun _ => false) l = false.
+Proof. induction l; cbn; auto. Qed.
+
+Lemma Phi_nil : Phi [] = false.
+Proof.
+  unfold DkgQualFacts.Phi. cbn [DkgQualFacts.forced DkgQualFacts.fatal orb].
+  unfold badFirst. cbn [DkgQualFacts.ansF]. rewrite existsb_const_false. reflexivity.
+Qed.
+
+Lemma Refines_init : Refines [] q_init.
+Proof.
+  split; [|discriminate]. intros _. split; [|exact Phi_nil].
+  refine (mkSA _ _ _ _ _ _ _ _ _ _ _ _ _); cbn; auto; try discriminate.
+  all: try (intro c; unfold DkgQualFacts.complained; destruct (Nat.eqb c (c_my cf)); reflexivity).
+  all: try (intros a H; discriminate H).
+  all: try (intros _ H; discriminate H).
+Qed.
+
+(* C07 qual_refines_factset *)
+Theorem qual_refines_factset : forall L, Refines (annot L) (irun q_init L).
+Proof.
+  intro L. rewrite <- (rev_involutive L). induction (rev L) as [|x K IH]; cbn [rev].
+  - exact Refines_init.
+  - rewrite annot_app. unfold irun. rewrite fold_left_app. cbn [fold_left]. apply step_refines. exact IH.
+Qed.
+
+(* the timeouts are counted whether or not the instance is disqualified (from the C10 simulation) *)
+Lemma istep_as_step q x :
+  istep q x = (qs_q (fst (fst (qual_step cf d (mkQS true q) (call_of x)))), snd (qual_step cf d (mkQS true q) (call_of x))).
+Proof. unfold istep. destruct (qual_step cf d (mkQS true q) (call_of x)) as [[s' res] ev]. reflexivity. Qed.
+
+Lemma ph_app L x : ph (L ++ [x]) = if is_timeout x then Nat.min 2 (S (length (filter is_timeout L))) else ph L.
+Proof.
+  unfold ph. rewrite filter_app, app_length. cbn [filter]. destruct (is_timeout x); cbn [length]; [rewrite Nat.add_1_r|rewrite Nat.add_0_r]; reflexivity.
+Qed.
+
+Lemma irun_inv : forall L,
+  qinv cf d (mkQS true (irun q_init L)) /\
+  (b2n (q_st (irun q_init L)) + b2n (q_ct (irun q_init L)))%nat = ph L.
+Proof.
+  intro L. rewrite <- (rev_involutive L). induction (rev L) as [|x K IH]; cbn [rev].
+  - split; [|reflexivity]. split; [apply (q_init_wf cf d)|]. cbn. intros E. exfalso. apply Hpd. exact E.
+  - destruct IH as [IH1 IH2]. unfold irun. rewrite fold_left_app. cbn [fold_left]. fold (irun q_init (rev K)).
+    set (q := irun q_init (rev K)) in *.
+    pose proof (qual_step_sim cf d Hp (mkQS true q) (call_of x) IH1) as HS.
+    rewrite istep_as_step. cbn [fst].
+    destruct (qual_step cf d (mkQS true q) (call_of x)) as [[s' res] ev]. cbn [fst snd].
+    unfold qabs in HS at 1. cbn [qs_run qs_q] in HS. rewrite IH2 in HS.
+    rewrite ph_app.
+    assert (Hcnt : ph (rev K) = Nat.min 2 (length (filter is_timeout (rev K)))) by reflexivity.
+    destruct x as [o m|o m| |j]; cbn [call_of aut_step a_run a_to has_timeouts negb is_timeout] in HS |- *.
+    + destruct (in_range cf (Z.of_nat o)); cbn in HS; destruct HS as (I & Ab & _); destruct s' as [r' q'];
+        unfold qabs in Ab; cbn in Ab; inversion Ab; subst; split; auto.
+    + destruct (in_range cf (Z.of_nat o)); cbn in HS; destruct HS as (I & Ab & _); destruct s' as [r' q'];
+        unfold qabs in Ab; cbn in Ab; inversion Ab; subst; split; auto.
+    + destruct (Nat.leb_spec 2 (ph (rev K))) as [H2|H2]; cbn in HS; destruct HS as (I & Ab & _); destruct s' as [r' q'];
+        unfold qabs in Ab; cbn in Ab; inversion Ab; subst; (split; [auto|]); cbn [qs_q]; rewrite Hcnt in *; lia.
+    + destruct (in_range cf (Z.of_nat j)); cbn in HS; destruct HS as (I & Ab & _); destruct s' as [r' q'];
+        unfold qabs in Ab; cbn in Ab; inversion Ab; subst; split; auto.
+Qed.
+
+Lemma irun_flags L :
+  q_st (irun q_init L) = Nat.leb 1 (ph L) /\ q_ct (irun q_init L) = Nat.leb 2 (ph L).
+Proof.
+  destruct (irun_inv L) as [[(_ & _ & _ & Q3) _] Hs]. cbn [qs_q] in Q3.
+  pose proof (Nat.le_min_l 2 (length (filter is_timeout L))) as Hle. fold (ph L) in Hle.
+  destruct (q_st (irun q_init L)), (q_ct (irun q_init L)); cbn in Hs; rewrite <- Hs; cbn; auto.
+  specialize (Q3 eq_refl). discriminate Q3.
+Qed.
+
+(* ---------------- End ---------------- *)
+Lemma unanswered_abs A q : StateAbs A q -> unanswered cf (q_compl q) = unansweredF cf d A.
+Proof.
+  intro S. unfold unanswered, unansweredF. apply existsb_ext'. intro c. rewrite (sa_compl _ _ S c).
+  destruct (complained A c), (ansF A c); reflexivity.
+Qed.
+
+(* the verdict at End is PhiEnd of the facts; the keys are those of the dealer's vector *)
+Theorem qual_end_verdict L :
+  ph L = 2%nat ->
+  let A := annot L in
+  let '(run', q', res, ev) := q_end cf d true (irun q_init L) in
+  run' = false /\
+  (PhiEnd cf d A = true -> res = RFailure /\ q_disq q' = true) /\
+  (PhiEnd cf d A = false ->
+     exists a, vecOk A = Some a /\ q_disq (irun q_init L) = false /\
+               res = end_keys cf (peval a (Z.of_nat p + 1)) (VAFull a) (Some (pubkeys cf a))).
+Proof.
+  intros Hph A. pose proof (qual_refines_factset L) as [R1 R2]. fold A in R1, R2.
+  set (q := irun q_init L) in *. unfold q_end. cbn [negb].
+  assert (Hn : nph A = 2%nat) by (unfold A; rewrite nph_annot; exact Hph).
+  destruct (q_disq q) eqn:Hq.
+  - (* already disqualified *)
+    assert (Hst : q_st q = true /\ q_ct q = true).
+    { destruct (irun_flags L) as [F1 F2]. fold q in F1, F2. rewrite Hph in F1, F2. auto. }
+    destruct Hst as [-> ->]. cbn. rewrite Hq. cbn.
+    split; [reflexivity|]. split.
+    + intros _. auto.
+    + unfold PhiEnd. rewrite (R2 eq_refl). discriminate.
+  - destruct (R1 eq_refl) as [S P].
+    rewrite (sa_st _ _ S), (sa_ct _ _ S), Hn. cbn [Nat.leb negb orb andb].
+    rewrite (unanswered_abs A q S). unfold PhiEnd. rewrite P. cbn [orb].
+    destruct (unansweredF cf d A) eqn:EU; cbn.
+    + split; [reflexivity|]. split; [auto|discriminate].
+    + rewrite Hq.
+      destruct (Phi_false_inv A P) as (_ & _ & _ & P4 & P5 & _).
+      unfold noVec in P5. rewrite Hn in P5. cbn in P5.
+      destruct (vecF A) as [vb|] eqn:Ev; [|discriminate P5].
+      unfold badVec in P4. rewrite Ev in P4. destruct vb as [|k|l]; try discriminate P4.
+      assert (Evo : vecOk A = Some (fixpoly (c_t cf) l)) by (unfold DkgQualFacts.vecOk; rewrite Ev; reflexivity).
+      destruct (sa_vok _ _ S _ Evo) as [EvA Ey].
+      assert (Hx : v_x (q_v q) = peval (fixpoly (c_t cf) l) (Z.of_nat p + 1)).
+      { destruct (sa_x _ _ S _ Evo) as [Hx|[Hc Ha]]; [right; rewrite Hn; lia|exact Hx|].
+        exfalso. unfold unansweredF in EU.
+        pose proof (existsb_false_in _ _ p EU) as HU. cbn beta in HU. rewrite Hc, Ha in HU.
+        assert (Hin : In p (seq 0 (c_n cf))) by (apply in_seq; unfold p; lia). specialize (HU Hin). discriminate HU. }
+      rewrite EvA, Ey, Hx.
+      destruct (end_keys cf (peval (fixpoly (c_t cf) l) (Z.of_nat p + 1)) (VAFull (fixpoly (c_t cf) l))
+                  (Some (pubkeys cf (fixpoly (c_t cf) l)))) eqn:EK; cbn;
+        (split; [reflexivity|split; [discriminate|intros _; exists (fixpoly (c_t cf) l); auto]]).
 Qed.
 
 End Refine.
